@@ -119,6 +119,9 @@ class C17(Check):
                 for _ in range(nf):
                     if rng.random() < 0.08 and spec["lgrids"] and spec["lgrids"][0]["fields"] and not fields:
                         fname = spec["lgrids"][0]["fields"][0]["name"]  # same keyword on two grids
+                    elif rng.random() < 0.1 and spec["efields"] and spec["efields"][0]["name"] not in [f["name"] for f in fields]:
+                        # the same keyword for an Eulerian and a Lagrangian field (separate registries, maybe other kinds)
+                        fname = spec["efields"][0]["name"]
                     else:
                         fname = names.pop() if names else f"x{rng.randrange(1000)}"
                     fields.append({"name": fname, "kind": rng.choice(["scalar", "vector", "vector"]), "f64": rng.random() < 0.5})
@@ -277,7 +280,7 @@ class C17(Check):
         if spec["grid"]:
             size = tuple(spec["grid"]["size"])
             # the registered arrays need not have the precision the IO object was told about
-            e_t = (np.float32 if real_t == np.float64 else np.float64) if spec.get("e_other") and spec["cls"] == "IO" else real_t
+            e_t = (np.float32 if real_t == np.float64 else np.float64) if spec.get("e_other") and spec["cls"] in ("IO", "EulerianFieldIO") else real_t
             for f in spec["efields"]:
                 shape = size if f["kind"] == "scalar" else (dim, *size)
                 arrs[("e", f["name"])] = cls._empty(shape, e_t, layout, SENTINEL if fill is None else fill)
@@ -439,7 +442,7 @@ class C17(Check):
                 res.probe("eulerian_io")
             if specs[i].get("layout", "C") != "C":
                 res.probe("non_c_contiguous_registered_arrays")
-            if specs[i].get("e_other") and specs[i]["cls"] == "IO" and specs[i]["efields"]:
+            if specs[i].get("e_other") and specs[i]["cls"] in ("IO", "EulerianFieldIO") and specs[i]["efields"]:
                 res.probe("eulerian_arrays_of_other_precision")
             if specs[i].get("lag_mixed") and len({a.dtype for k, a in arrs.items() if k[0] in ("g", "l")}) > 1:
                 res.probe("mixed_precision_in_one_io")
